@@ -1,7 +1,7 @@
 """C05 - DAC waveforms are slot-exact and SAMPLER inverts them.  Spec: DacSampler.tla, DacModel.tla, DacTrace.tla."""
 import itertools, random, warnings
 import numpy as np
-from ..core import deadline, import_repo
+from ..core import deadline, import_repo, protect
 
 LEVEL = "model_checking"
 
@@ -22,7 +22,7 @@ def run(ctx):
 
     def form(bits, f):
         a = np.array(bits, dtype=np.uint8)
-        return {"str": "".join(map(str, bits)), "list": list(bits), "ndarray": a, "binary_sequence": binary_sequence(a), "tuple": tuple(bits)}[f]
+        return {"str": "".join(map(str, bits)), "list": list(bits), "ndarray": protect(a), "binary_sequence": protect(binary_sequence(a.copy())), "tuple": tuple(bits)}[f]
 
     def ints64(a):
         v = np.asarray(a) * 64
